@@ -229,13 +229,18 @@ class PVManager(ComponentManager):
             failed_components.add(component_id)
             failed_power += allocations[component_id]
 
+        # The power that was successfully set is what was requested, minus what could
+        # not be allocated to any inverter, minus what was allocated to inverters for
+        # which the API call failed.
+        succeeded_power = request.power - remaining_power - failed_power
+
         if failed_components:
             await self._results_sender.send(
                 PartialFailure(
                     failed_components=failed_components,
                     succeeded_components=succeeded_components,
                     failed_power=failed_power,
-                    succeeded_power=self._target_power - failed_power,
+                    succeeded_power=succeeded_power,
                     excess_power=remaining_power,
                     request=request,
                 )
@@ -244,7 +249,7 @@ class PVManager(ComponentManager):
         await self._results_sender.send(
             Success(
                 succeeded_components=succeeded_components,
-                succeeded_power=self._target_power,
+                succeeded_power=succeeded_power,
                 excess_power=remaining_power,
                 request=request,
             )
